@@ -150,8 +150,13 @@ func (s *Set) getSiblingTemplate(templatePath, siblingPath string, cacheAfterPar
 // same as GetTemplate, but doesn't cache a template when found through the loader.
 func (s *Set) getTemplate(templatePath string, cacheAfterParsing bool) (t *Template, err error) {
 	if !s.developmentMode {
-		t, found := s.getTemplateFromCache(templatePath)
+		t, exact, found := s.getTemplateFromCache(templatePath)
 		if found {
+			if !exact && cacheAfterParsing {
+				// found under another spelling (path + extension): remember it under the requested
+				// path too, so that entries cached later cannot change what this name returns
+				s.cache.Put(templatePath, t)
+			}
 			return t, nil
 		}
 	}
@@ -165,10 +170,10 @@ func (s *Set) getTemplate(templatePath string, cacheAfterParsing bool) (t *Templ
 	return t, err
 }
 
-func (s *Set) getTemplateFromCache(templatePath string) (t *Template, ok bool) {
+func (s *Set) getTemplateFromCache(templatePath string) (t *Template, exact, ok bool) {
 	// a template is stored under the path it was requested with
 	if t := s.cache.Get(templatePath); t != nil {
-		return t, true
+		return t, true, true
 	}
 	// check path with all possible extensions in cache
 	for _, extension := range s.extensions {
@@ -177,10 +182,10 @@ func (s *Set) getTemplateFromCache(templatePath string) (t *Template, ok bool) {
 		}
 		canonicalPath := templatePath + extension
 		if t := s.cache.Get(canonicalPath); t != nil {
-			return t, true
+			return t, false, true
 		}
 	}
-	return nil, false
+	return nil, false, false
 }
 
 func (s *Set) getTemplateFromLoader(templatePath string, cacheAfterParsing bool) (t *Template, err error) {
